@@ -163,3 +163,174 @@ Section Gibbs.
     - apply gibbs_adsorption, E.
   Qed.
 End Gibbs.
+
+(** ** (b) the linearised Euler-Lagrange equation of [density_derivative] *)
+
+(** pointwise form of the operator (no bond integrals): [rhs x = x*m + delta_functional_derivative x * rho] and of the
+    right-hand sides ("lhs" in the code) that [drho_dmu], [drho_dp], [drho_dt] pass to GMRES *)
+Definition lin_op (m rho hx x : R) : R := m * x + rho * hx.
+Definition rhs_mu (rho delta : R) : R := rho * delta.
+Definition rhs_p (rho v : R) : R := rho * v.
+(** [drho_dt]: eps = d/dT [-(ln (exp(-G) * bonds)) * T] at fixed rho, rho_b (dual number); then
+    "+= ln(rho/rho_b); *= m; += v dp/dT; *= -rho/T" *)
+Definition code_rhs_t (m rho rhob T eps vpT : R) : R := ((eps + ln (rho / rhob)) * m + vpT) * (- rho / T).
+
+Section Linear.
+  Variable n : nat.
+  Variable m : nat -> R.
+  (** functional derivative at parameter t (t = a chemical potential, the pressure or the temperature), its explicit
+      partial derivative w.r.t. t at fixed profile, and its directional derivative w.r.t. the profile *)
+  Variable Dt dtD : R -> (nat -> R) -> nat -> R.
+  Variable H : R -> (nat -> R) -> (nat -> R) -> nat -> R.
+  (** the family of solutions, the external potential / kT and the bulk side b = m ln rho_b + Db, with derivatives *)
+  Variables rho drho V dV b db : nat -> R -> R.
+
+  Definition profL (t : R) : nat -> R := fun i => rho i t.
+  Definition dprofL (t : R) : nat -> R := fun i => drho i t.
+
+  Definition ELt (t : R) : Prop :=
+    forall i, (i < n)%nat -> m i * ln (rho i t) + Dt t (profL t) i + V i t = b i t.
+
+  Hypothesis Hrho : forall i t, (i < n)%nat -> is_derive (rho i) t (drho i t).
+  Hypothesis Hpos : forall i t, (i < n)%nat -> 0 < rho i t.
+  Hypothesis HV : forall i t, (i < n)%nat -> is_derive (V i) t (dV i t).
+  Hypothesis Hb : forall i t, (i < n)%nat -> is_derive (b i) t (db i t).
+  (** chain rule along the family: explicit partial + Jacobian applied to the tangent *)
+  Hypothesis HD : forall i t, (i < n)%nat ->
+    is_derive (fun s => Dt s (profL s) i) t (dtD t (profL t) i + H t (profL t) (dprofL t) i).
+
+  (** the tangent of a family of solutions solves the linear system of [density_derivative] with right-hand side
+      rho * (d b - d V - partial_t D) *)
+  Theorem linearised_EL : (forall t, ELt t) -> forall t i, (i < n)%nat ->
+    lin_op (m i) (rho i t) (H t (profL t) (dprofL t) i) (drho i t) = rho i t * (db i t - dV i t - dtD t (profL t) i).
+  Proof.
+    intros E t i Hi. unfold lin_op.
+    pose proof (Hrho i t Hi) as Hr. pose proof (Hpos i t Hi) as Hp.
+    assert (Hl : is_derive (fun s => m i * ln (rho i s) + Dt s (profL s) i + V i s) t
+                   (m i * (drho i t / rho i t) + (dtD t (profL t) i + H t (profL t) (dprofL t) i) + dV i t)).
+    { apply (is_derive_plus (fun s => m i * ln (rho i s) + Dt s (profL s) i) (fun s => V i s)); [|apply HV; exact Hi].
+      apply (is_derive_plus (fun s => m i * ln (rho i s)) (fun s => Dt s (profL s) i)); [|apply HD; exact Hi].
+      auto_derive.
+      - split; [eexists; exact Hr|]. split; auto.
+      - assert (E1 : Derive (fun x : R => rho i x) t = drho i t) by (apply is_derive_unique; exact Hr).
+        rewrite E1. field. lra. }
+    assert (Heq : is_derive (b i) t
+                   (m i * (drho i t / rho i t) + (dtD t (profL t) i + H t (profL t) (dprofL t) i) + dV i t)).
+    { eapply is_derive_ext; [|exact Hl]. intros s. simpl. apply (E s i Hi). }
+    pose proof (is_derive_unique _ _ _ Heq) as U1. pose proof (is_derive_unique _ _ _ (Hb i t Hi)) as U2.
+    rewrite U1 in U2.
+    assert (U3 : db i t = m i * (drho i t / rho i t) + (dtD t (profL t) i + H t (profL t) (dprofL t) i) + dV i t)
+      by (symmetry; exact U2).
+    rewrite U3. field. lra.
+  Qed.
+
+  (** [drho_dmu] for component k: t = mu_k / kT, the functional does not depend on t explicitly, V fixed, d b_i = delta_ik *)
+  Corollary linearised_EL_mu (delta : nat -> R) : (forall t, ELt t) ->
+    (forall t r i, dtD t r i = 0) -> (forall i t, dV i t = 0) -> (forall i t, db i t = delta i) ->
+    forall t i, (i < n)%nat ->
+    lin_op (m i) (rho i t) (H t (profL t) (dprofL t) i) (drho i t) = rhs_mu (rho i t) (delta i).
+  Proof.
+    intros E Z1 Z2 Z3 t i Hi. rewrite (linearised_EL E t i Hi), Z1, Z2, Z3. unfold rhs_mu. ring.
+  Qed.
+
+  (** when the operator is homogeneous (the code's H is linear), T * tangent solves the system with T * rhs: this is
+      how the code gets d rho / d mu (mu in energy units, d b_i = delta_ik / T) and d rho / d p (Gibbs-Duhem at constant
+      T and composition: d b_i = v_i / T dp) from right-hand sides rho * delta and rho * v, dividing the solution by T *)
+  Hypothesis H_hom : forall t r x c i, H t r (fun k => c * x k) i = c * H t r x i.
+
+  Corollary linearised_EL_scaled (T : R) (q : nat -> R) : (forall t, ELt t) ->
+    (forall t i, (i < n)%nat -> db i t - dV i t - dtD t (profL t) i = q i / T) -> T <> 0 ->
+    forall t i, (i < n)%nat ->
+    lin_op (m i) (rho i t) (H t (profL t) (fun k => T * drho k t) i) (T * drho i t) = rho i t * q i.
+  Proof.
+    intros E Q HT t i Hi. unfold lin_op. rewrite H_hom.
+    pose proof (linearised_EL E t i Hi) as L. unfold lin_op, dprofL in L. rewrite (Q t i Hi) in L.
+    replace (m i * (T * drho i t) + rho i t * (T * H t (profL t) (fun k => drho k t) i))
+      with (T * (m i * drho i t + rho i t * H t (profL t) (fun k => drho k t) i)) by ring.
+    rewrite L. field. exact HT.
+  Qed.
+
+  Corollary linearised_EL_p (T : R) (v : nat -> R) : (forall t, ELt t) ->
+    (forall t r i, dtD t r i = 0) -> (forall i t, dV i t = 0) -> (forall i t, db i t = v i / T) -> T <> 0 ->
+    forall t i, (i < n)%nat ->
+    lin_op (m i) (rho i t) (H t (profL t) (fun k => T * drho k t) i) (T * drho i t) = rhs_p (rho i t) (v i).
+  Proof.
+    intros E Z1 Z2 Z3 HT t i Hi. unfold rhs_p. apply (linearised_EL_scaled T v E); auto.
+    intros s j _. rewrite Z1, Z2, Z3. ring.
+  Qed.
+
+  (** uniqueness: if the (linear) operator is injective, whatever solves the system is the tangent *)
+  Hypothesis H_add : forall t r x y i, H t r (fun k => x k - y k) i = H t r x i - H t r y i.
+
+  Theorem linear_solution_unique t (rhs x y : nat -> R) :
+    (forall z, (forall i, (i < n)%nat -> lin_op (m i) (rho i t) (H t (profL t) z i) (z i) = 0) -> forall i, (i < n)%nat -> z i = 0) ->
+    (forall i, (i < n)%nat -> lin_op (m i) (rho i t) (H t (profL t) x i) (x i) = rhs i) ->
+    (forall i, (i < n)%nat -> lin_op (m i) (rho i t) (H t (profL t) y i) (y i) = rhs i) ->
+    forall i, (i < n)%nat -> x i = y i.
+  Proof.
+    intros Inj Ex Ey i Hi.
+    pose proof (Inj (fun k => x k - y k)) as Z. simpl in Z.
+    assert (Z0 : x i - y i = 0).
+    { apply Z; [|exact Hi]. intros j Hj. unfold lin_op in *. rewrite H_add.
+      pose proof (Ex j Hj). pose proof (Ey j Hj). lra. }
+    lra.
+  Qed.
+
+  (** adsorbed amounts: N = sum_i sel_i w_i rho_i (sel selects the segment [integrate_segments] keeps for a component);
+      its derivative is the same weighted sum of the tangent -- what [dn_dmu], [dn_dp], [dn_dt] return *)
+  Theorem dN_is_weighted_sum (w sel : nat -> R) t :
+    is_derive (fun s => sumn n (fun i => sel i * (w i * rho i s))) t (sumn n (fun i => sel i * (w i * drho i t))).
+  Proof.
+    apply (is_derive_sumn n (fun i s => sel i * (w i * rho i s))). intros i Hi.
+    pose proof (Hrho i t Hi) as Hr. auto_derive.
+    - eexists; exact Hr.
+    - assert (E1 : Derive (fun x : R => rho i x) t = drho i t) by (apply is_derive_unique; exact Hr).
+      rewrite E1. ring.
+  Qed.
+End Linear.
+
+(** [drho_dt]: the right-hand side the code assembles is rho * (d b - d V - partial_T D) with
+      V = U / T (U fixed),  d V = - V / T,   b = m ln rho_b + Db,  d b = partial_T Db - v (dp/dT)_rho / T
+    (Gibbs-Duhem at constant pressure and composition), when the profile solves the Euler-Lagrange equation in the
+    code's form  ln (rho / rho_b) = - G,  G = (D + V - Db) / m,  and eps = d (G T) / dT = G + T dG. *)
+Theorem code_rhs_t_correct (m rho rhob T D V Db dtD dtDb vpT : R) :
+  m <> 0 -> T <> 0 ->
+  let G := (D + V - Db) / m in
+  let dG := (dtD - V / T - dtDb) / m in
+  ln (rho / rhob) = - G ->
+  code_rhs_t m rho rhob T (G + T * dG) vpT = rho * ((dtDb - vpT / T) - (- V / T) - dtD).
+Proof.
+  intros Hm HT G dG E. unfold code_rhs_t. rewrite E. unfold G, dG. field. split; assumption.
+Qed.
+
+(** Gibbs-Duhem for a pure bulk fluid with Helmholtz energy density f (any units): mu = f', p = rho mu - f, hence
+    dp = rho dmu; along an isotherm parametrised by the pressure, dmu/dp = 1/rho = v *)
+Lemma gibbs_duhem (f mu : R -> R) (dmu r : R) :
+  is_derive f r (mu r) -> is_derive mu r dmu -> is_derive (fun x => x * mu x - f x) r (r * dmu).
+Proof.
+  intros Hf Hm. auto_derive.
+  - split; [eexists; exact Hm|]. split; [eexists; exact Hf|auto].
+  - assert (E1 : Derive (fun x : R => mu x) r = dmu) by (apply is_derive_unique; exact Hm).
+    assert (E2 : Derive (fun x : R => f x) r = mu r) by (apply is_derive_unique; exact Hf).
+    rewrite E1, E2. ring.
+Qed.
+
+Theorem dmu_dp_is_molar_volume (f mu dmu rb : R -> R) (drb p0 s : R) :
+  (forall r, is_derive f r (mu r)) -> (forall r, is_derive mu r (dmu r)) ->
+  is_derive rb s drb -> (forall s', rb s' * mu (rb s') - f (rb s') = p0 + s') -> rb s <> 0 ->
+  is_derive (fun s' => mu (rb s')) s (1 / rb s).
+Proof.
+  intros Hf Hm Hr Hp Hne.
+  assert (C1 : is_derive (fun s' => rb s' * mu (rb s') - f (rb s')) s (drb * (rb s * dmu (rb s)))).
+  { apply (is_derive_comp (fun x => x * mu x - f x) rb s); [apply gibbs_duhem; auto|exact Hr]. }
+  assert (C2 : is_derive (fun s' => p0 + s') s 1).
+  { auto_derive; [auto|ring]. }
+  assert (C3 : is_derive (fun s' => p0 + s') s (drb * (rb s * dmu (rb s)))).
+  { eapply is_derive_ext; [|exact C1]. intros s'. simpl. apply Hp. }
+  pose proof (is_derive_unique _ _ _ C2) as U2. pose proof (is_derive_unique _ _ _ C3) as U3. rewrite U2 in U3.
+  assert (C4 : is_derive (fun s' => mu (rb s')) s (drb * dmu (rb s))).
+  { apply (is_derive_comp mu rb s); [apply Hm|exact Hr]. }
+  eapply is_derive_eq; [|exact C4].
+  assert (U : 1 = drb * (rb s * dmu (rb s))) by exact U3.
+  apply Rmult_eq_reg_l with (rb s); [|exact Hne]. field_simplify; [|exact Hne]. lra.
+Qed.
